@@ -695,7 +695,7 @@ class Agent(dbus.service.Object):
             glib.timeout_add(1000, self._poll, item, False)
         return tid
 
-    @dbus.service.signal(DBUS_IFACE, signature='xissq')
+    @dbus.service.signal(DBUS_IFACE, signature='xtssq')
     def polling_received(self, dtntime, interval_ms, node_id, address, port):
         ''' Signal when a receive-path accept is received.
         '''
